@@ -134,6 +134,54 @@ def sensitivity(argv):
     return 0 if caught == len(rows) else 1
 
 
+def silence(argv):
+    """Every check against mutants that break only properties NOT claimed here: any alarm outside the
+    mutant's `legit` list is a false alarm of the machinery."""
+    from ..core.repo import VERIF_DIR, repo_path
+    from .mutants import SILENCE
+
+    scale = _arg(argv, "--scale", "0.1")
+    only = _arg(argv, "--only")
+    only = set(only.split(",")) if only else None
+    props = (_arg(argv, "--props") or "C02,C03,C07,C08,C09,C10,C11,C12,C13,C15,C16,C18,C20").split(",")
+    src = repo_path()
+    bad = 0
+    table = {}
+    for (mid, broken, rel, old, new, note, legit) in SILENCE:
+        if only and mid not in only:
+            continue
+        tmp = tempfile.mkdtemp(prefix="dst-silence-")
+        try:
+            _copy_repo(src, tmp)
+            path = os.path.join(tmp, rel)
+            text = open(path).read()
+            if text.count(old) != 1:
+                print(f"{mid}: STALE mutant (pattern occurs {text.count(old)} times)", flush=True)
+                bad += 1
+                continue
+            open(path, "w").write(text.replace(old, new))
+            row = {}
+            for prop in props:
+                env = dict(os.environ, VERIF_REPO=tmp, VERIF_SCALE=scale, VERIF_NO_RESAMPLE="1",
+                           VERIF_EVIDENCE_DIR=os.path.join(tmp, "evidence"), VERIF_REPLAY_DIR=os.path.join(tmp, "replays"))
+                p = subprocess.run([sys.executable, "-m", "dst", "check", prop, "--tier", "quick"],
+                                   cwd=VERIF_DIR, env=env, capture_output=True, text=True, timeout=3600)
+                kinds = sorted({ln.strip().split(":")[0] for ln in p.stdout.splitlines() if ln.startswith("  ") and ": {" in ln})
+                row[prop] = (p.returncode, kinds)
+                if p.returncode == 2 or (p.returncode == 1 and prop not in legit):
+                    bad += 1
+                    print(f"   !! {mid} ({broken}): {prop} rc={p.returncode} {kinds}  " + " | ".join(p.stdout.splitlines()[-4:])[:600])
+            table[mid] = {k: {"rc": v[0], "kinds": v[1]} for k, v in row.items()}
+            print(f"{mid} (breaks {broken}; legit alarms: {legit or 'none'}): "
+                  + " ".join(f"{k}:{'X' if v[0] == 1 else '.' if v[0] == 0 else 'E'}" for k, v in row.items()), flush=True)
+        finally:
+            shutil.rmtree(tmp, ignore_errors=True)
+    with open(os.path.join(VERIF_DIR, "dst", "selftest", "last_silence.json"), "w") as f:
+        json.dump(table, f, indent=1, sort_keys=True)
+    print(f"silence selftest: {bad} unexpected alarms / errors")
+    return 1 if bad else 0
+
+
 def main(argv):
     if not argv:
         print(__doc__)
@@ -142,5 +190,7 @@ def main(argv):
         return determinism(argv[1:])
     if argv[0] == "sensitivity":
         return sensitivity(argv[1:])
+    if argv[0] == "silence":
+        return silence(argv[1:])
     print(__doc__)
     return 2
